@@ -256,19 +256,22 @@ def F12_label_rank_mismatch():
 
 
 def F12b_real_run_index_error():
+    """a real run in which a stale clusterer predicts a label that has no mode (cluster_every > 1)"""
     from tempest import Sampler
 
     def like(x):
-        return float(np.logaddexp(-0.5 * np.sum((x - 2) ** 2) / 0.09, -0.5 * np.sum((x + 2) ** 2) / 0.09 - 10))
+        return float(np.logaddexp(-0.5 * np.sum((x - 2) ** 2) / 0.09, -0.5 * np.sum((x + 2) ** 2) / 0.09 - 30))
     with _quiet(), warnings.catch_warnings():
         warnings.simplefilter("ignore")
-        np.random.seed(1)
+        np.random.seed(3)
         try:
-            Sampler(lambda u: 10 * u - 5, like, 2, n_particles=32, clustering=True, cluster_every=3).run(n_total=256, progress=False)
+            Sampler(lambda u: 10 * u - 5, like, 2, n_particles=32, clustering=True, cluster_every=7, sample="tpcn").run(n_total=256, progress=False)
             err = None
         except Exception as e:  # noqa
             err = f"{type(e).__name__}: {e}"
-    return {"fails": err is not None, "detail": f"seed 1, two-mode target, n_particles=32, cluster_every=3, run(n_total=256) -> {err or 'completes'}"}
+    # only the label/mode lookup failure counts here; a degenerate cluster refused by the constructor is another matter (C18/C19)
+    return {"fails": err is not None and err.startswith("IndexError"),
+            "detail": f"seed 3, two-mode target (log height ratio 30), n_particles=32, cluster_every=7, tpcn, run(n_total=256) -> {err or 'completes'}"}
 
 
 # ---------------------------------------------------------------- C17 / F14 F15
@@ -376,6 +379,39 @@ def F22_gmm_init_underflow():
         g = GaussianMixture(n_components=1, random_state=0).fit(np.array([[0.0], [0.0], [40.0], [40.0]]))
     bad = bool(np.any(~np.isfinite(g.weights_)) or np.any(~np.isfinite(g.means_)) or abs(float(np.sum(g.weights_)) - 1.0) > 1e-9)
     return {"fails": bad, "detail": f"GaussianMixture(1).fit([[0],[0],[40],[40]]): weights_={g.weights_.tolist()}, means_={g.means_.ravel().tolist()}"}
+
+
+# ---------------------------------------------------------------- C18 (C19) / F23 F24
+def _small_pop_run(seed, **cfg):
+    import traceback
+    from tempest import Sampler
+    with _quiet(), warnings.catch_warnings():
+        warnings.simplefilter("ignore")
+        np.random.seed(seed)
+        try:
+            Sampler(lambda u: 8.0 * u - 4.0, lambda x: -0.5 * float(np.sum((x - 0.3) ** 2)) * 2.0, 3, **cfg).run(n_total=48, progress=False)
+            return None, None
+        except Exception as e:  # noqa
+            tb = traceback.extract_tb(e.__traceback__)
+            files = [f.filename.split("/")[-1] for f in tb]
+            return f"{type(e).__name__}: {e}", files
+
+
+def F23_mvstud_em_collapse():
+    """valid small-population configuration: the Student-t EM must not abort the run"""
+    bad = []
+    for seed in (0, 1, 2, 5, 6):
+        err, files = _small_pop_run(seed, n_particles=8, ess_ratio=1.0, sample="rwm")
+        if err and "student.py" in files:
+            bad.append((seed, err))
+    return {"fails": bool(bad), "detail": f"Sampler(d=3, n_particles=8, ess_ratio=1.0, rwm).run(48), seeds 0,1,2,5,6: exceptions raised inside fit_mvstud: {bad[:2] or 'none'}"}
+
+
+def F24_degenerate_cluster_singular():
+    """default population (2*n_dim = 6 particles in 3-D): a proposal mode fitted from too few distinct points"""
+    err, files = _small_pop_run(15)
+    return {"fails": bool(err) and "modes.py" in (files or []),
+            "detail": f"Sampler(d=3, defaults: n_particles=6, clustering on).run(48), seed 15 -> {err or 'completes'}"}
 
 
 ALL = {k: v for k, v in list(globals().items()) if k[:1] == "F" and callable(v)}
